@@ -172,6 +172,14 @@ def run(ctx, extra_cases=()):
     if not ctx.quick:
         clean_vo()
     proved = ctx.prove()
+    # translator tie: the LDL^T / Cholesky families and the permutation-free PLU routines are re-translated on every run with the
+    # order fixed (0..4), loops unrolled, callees inlined, arrays exactly sized, and proved to compute what the hand model
+    # computes for ALL matrix entries and every instance of the numeric interface (160 tie theorems)
+    by_src = {}
+    for ln in (HD / "tie_names.txt").read_text().splitlines():
+        src_, spec_ = ln.split()
+        by_src.setdefault(src_, []).append(spec_)
+    ctx.translate_and_tie(list(by_src.items()), "GenFac", sorted(HD.glob("TieFac*.v")), have=1, real=8, extra_sources=["src/linalg.c"])
     if proved and not ctx.quick:
         rc, out = vlib.sh(["coqchk", "-silent", "-o", "-Q", ".", "LibaV", "LibaV.Properties_C08"], cwd=vlib.COQ, timeout=1200)
         ok = rc == 0 and "type-in-type: <none>" in out and "unsafe (co)fixpoints: <none>" in out \
